@@ -21,6 +21,11 @@ FRESH_CALLS = {"sort_by_cost", "sort_and_trim", "best_agents", "worst_agents", "
                "find_centers", "_generate_agents", "chain", "from_iterable"}
 
 
+def _unmangle(name):
+    """`__x` written inside class C is the attribute `_C__x`: compare private names by their source spelling"""
+    return name
+
+
 @dataclass
 class Site:
     family: str
@@ -144,9 +149,10 @@ class Analyzer:
             for hc in self.module_classes(ci):
                 units += [(hc, n, f) for n, f in hc.methods.items()]
             scal = self.config_scalar_fields(ci)
+            falias = self.field_aliases(units, scal)
             for owner, fname, fdef in units:
                 self.frame_book(ci, owner, fname, fdef)
-                self.frame_cfg(ci, owner, fname, fdef, scal)
+                self.frame_cfg(ci, owner, fname, fdef, scal, falias)
                 self.frame_view(ci, owner, fname, fdef)
                 self.prov(ci, owner, fname, fdef)
                 self.calls(ci, owner, fname, fdef)
@@ -198,12 +204,30 @@ class Analyzer:
                              "book-keeping list mutated by a subclass", owner.file)
 
     # ---- FRAME-cfg ---------------------------------------------------------------------------------------------------
-    def frame_cfg(self, ci, owner, fname, fdef, scal):
-        aliases = {}     # local name -> description of the config/task sub-object it may alias
+    def field_aliases(self, units, scal):
+        """instance fields bound to a mutable sub-object of the configuration / task: `self.X = self._config.<list field>`"""
+        out = {}
+        for owner, fname, fdef in units:
+            for node in ast.walk(fdef):
+                if isinstance(node, ast.Assign) and len(node.targets) == 1 and isinstance(node.targets[0], ast.Attribute) \
+                        and isinstance(node.targets[0].value, ast.Name) and node.targets[0].value.id == "self" \
+                        and isinstance(node.value, (ast.Attribute, ast.Subscript)):
+                    p = _root(node.value)
+                    if p[:2] in (["self", "_config"], ["self", "_task"]) and len(p) >= 3 and "()" not in p:
+                        leaf = [x for x in p[2:] if x != "[]"]
+                        if leaf and leaf[0] in scal and len(leaf) == 1:
+                            continue
+                        if isinstance(node.value, ast.Subscript):
+                            continue      # an element of a configuration list (a scalar in every config model of the package)
+                        out[node.targets[0].attr] = "self." + ".".join(p[1:])
+        return out
 
-        def is_cfg_path(path):
-            return (path[:2] in (["self", "_config"], ["self", "_task"])) or path[:1] == ["task"] or \
-                   (path[:1] and path[0] in aliases)
+    def frame_cfg(self, ci, owner, fname, fdef, scal, falias=None):
+        aliases = {}     # local name -> description of the config/task sub-object it may alias
+        falias = falias or {}
+
+        def via_field(path):
+            return len(path) >= 2 and path[0] == "self" and _unmangle(path[1]) in falias
 
         for node in ast.walk(fdef):
             # alias creation: name = self._config.attr / self._task.attr[...] / variable.get_bounds()
@@ -237,15 +261,17 @@ class Analyzer:
                 direct = path[:2] in (["self", "_config"], ["self", "_task"]) and len(path) > 2
                 via_task = path[:1] == ["task"] and len(path) > 1
                 via_alias = path[0] in aliases and len(path) > 1
-                bad = direct or via_task or via_alias
+                via_fld = via_field(path) and (len(path) > 2 or kind == "aug")
+                bad = direct or via_task or via_alias or via_fld
                 n_sites += 1
                 self.add("FRAME-cfg", ci.name, f"{owner.name}.{fname}", tgt, f"store to {'.'.join(path)}", not bad,
                          "target is not reachable from the configuration or the task" if not bad else
-                         ("store into the caller's configuration / task" + (f" through alias {aliases.get(path[0])}" if via_alias else "")),
+                         ("store into the caller's configuration / task" + (f" through alias {aliases.get(path[0])}" if via_alias else "")
+                          + (f" through the instance field self.{path[1]} bound to {falias.get(_unmangle(path[1]))}" if via_fld else "")),
                          owner.file)
             if isinstance(node, ast.Call) and isinstance(node.func, ast.Attribute) and node.func.attr in MUTATORS:
                 path = _root(node.func.value)
-                if (path[:2] in (["self", "_config"], ["self", "_task"]) and len(path) > 2) or (path[0] in aliases):
+                if (path[:2] in (["self", "_config"], ["self", "_task"]) and len(path) > 2) or (path[0] in aliases) or via_field(path):
                     self.add("FRAME-cfg", ci.name, f"{owner.name}.{fname}", node, f"{'.'.join(path)}.{node.func.attr}(...)", False,
                              "mutating call on the caller's configuration / task", owner.file)
             if isinstance(node, ast.Call) and _root(node.func)[-2:] == ["random", "shuffle"] and node.args:
